@@ -216,7 +216,7 @@ impl Explorer {
             self.stats.stop.store(true, Ordering::Relaxed);
         }
         let mut r = r;
-        if let (Some(p), Some(f)) = (r.panic.as_ref(), self.panic_to_violation) { r.violations.push(f(p, &format!("scenario {}", &sc.name[..sc.name.len().min(60)]))); }
+        if let (Some(p), Some(f)) = (r.panic.as_ref(), self.panic_to_violation) { let v = f(p, &format!("scenario {}", &sc.name[..sc.name.len().min(60)])); if !v.sig.ends_with("not-a-C20-verdict") { r.violations.push(v); } }
         if let Some(p) = r.panic {
             local.panics += 1;
             let mut ps = self.stats.panic_samples.lock().unwrap();
